@@ -14,7 +14,12 @@ Verdict(tr) ==
       after  == IF perr = 0 THEN <<>> ELSE SubSeq(tr, perr + 1, Len(tr))
       evsB == MessageEvents(before)
       evsAll == Events(tr)
-      fa == Frames(after)
+      \* frames written by the library on its own: those an application call wrote (recorded right before the call record,
+      \* e.g. a send made by the handler of the ProtocolError event) are the application's business, not C04's
+      n == Len(tr)
+      appPos == UNION { (c - tr[c].nwr - tr[c].nwrf)..(c - 1) : c \in { i \in 1..n : tr[i].k = "call" } }
+      fa == SelectSeq([i \in 1..Len(after) |-> [r |-> after[i], p |-> perr + i]],
+                      LAMBDA e : e.r.k = "wr" /\ e.r.what = "frame" /\ e.p \notin appPos)
   IN
   IF ref.viol = 0 THEN "ok"            \* no violation delivered: outside C04
   ELSE FirstFailing(<<
@@ -26,7 +31,7 @@ Verdict(tr) ==
     <<"not_ended_by_nongraceful_disconnected",
         evsAll # <<>> /\ Last(evsAll).name = "disconnected" /\ ~Last(evsAll).graceful>>,
     <<"wrote_more_than_a_close_frame_after_violation",
-        Len(fa) <= 1 /\ \A i \in 1..Len(fa) : fa[i].op = OpClose>>
+        Len(fa) <= 1 /\ \A i \in 1..Len(fa) : fa[i].r.op = OpClose>>
   >>)
 PrefixOK(tr) == TRUE
 =============================================================================
